@@ -102,7 +102,7 @@ func (m *Monitors) before(o *Op) *Pre {
 			m.k5 = true
 		}
 	}
-	if (o.Kind == "call" || o.Kind == "modcall" || o.Kind == "updctx") && o.Freq >= 1<<62 {
+	if (o.Kind == "call" || o.Kind == "modcall" || o.Kind == "updctx" || o.Kind == "modupd") && o.Freq >= 1<<62 {
 		m.k2 = true
 	}
 	bal, esc, dep, fee, sup := m.balances()
